@@ -40,6 +40,7 @@ type Contract struct {
 	Rank     int
 	FuelFor  map[string]int
 	File     string
+	Broken   string   // why the whole contract was dropped (it does not compile against the current sources)
 	Missing  []string // "assert/<label>: <why>": directives whose anchor no longer exists (each becomes a failed obligation)
 }
 
@@ -413,6 +414,8 @@ type weaver struct {
 	pkgNames map[string]string
 	errs  []string
 	orphans []*Contract // contracts whose function no longer exists
+	spliceOwner map[string]*Contract // "file:line" of a spliced ghost statement -> its contract
+	contracts   []*Contract
 }
 
 const verifspecPath = "github.com/grindlemire/go-lucene/internal/verifspec"
@@ -548,7 +551,20 @@ func fileImports(f *ast.File) map[string]string {
 // weave processes one contract: splices loop ghosts into the source file and
 // appends requires/ensures wrapper functions to the generated file.
 func (w *weaver) weave(c *Contract) {
+	w.contracts = append(w.contracts, c)
 	sf, fd := w.findFunc(c)
+	if sf != nil {
+		before := len(sf.splices)
+		defer func() {
+			if w.spliceOwner == nil {
+				w.spliceOwner = map[string]*Contract{}
+			}
+			for _, sp := range sf.splices[before:] {
+				line := 1 + bytes.Count(sf.src[:sp.off], []byte("\n"))
+				w.spliceOwner[fmt.Sprintf("%s:%d", sf.path, line)] = c
+			}
+		}()
+	}
 	if fd == nil {
 		// the function a contract names is gone (renamed, receiver kind changed, removed): only this
 		// contract is lost - it becomes one failed obligation of that function, the rest still loads
@@ -988,4 +1004,37 @@ func loopHeaderAt(sf *srcFile, fd *ast.FuncDecl, off int) string {
 		return true
 	})
 	return out
+}
+
+var reErrPos = regexp.MustCompile(`^(.*?\.go):(\d+):(\d+): `)
+var reGenFn = regexp.MustCompile(`^func vc__[a-z]+__(.+)__\d+\(`)
+
+// contractAt finds the contract responsible for a compile error: one of its generated clause
+// functions, or a ghost statement woven into the function it annotates.
+func (w *weaver) contractAt(errText string, overlay map[string][]byte) *Contract {
+	m := reErrPos.FindStringSubmatch(errText)
+	if m == nil {
+		return nil
+	}
+	file := m[1]
+	line := 0
+	fmt.Sscanf(m[2], "%d", &line)
+	if strings.HasSuffix(file, "zz_verif_gen.go") {
+		lines := strings.Split(string(overlay[file]), "\n")
+		for i := line - 1; i >= 0 && i < len(lines); i-- {
+			if g := reGenFn.FindStringSubmatch(lines[i]); g != nil {
+				for _, c := range w.contracts {
+					if c.ID == g[1] && filepath.Dir(file) == c.PkgDir {
+						return c
+					}
+				}
+				return nil
+			}
+		}
+		return nil
+	}
+	if c, ok := w.spliceOwner[fmt.Sprintf("%s:%d", file, line)]; ok {
+		return c
+	}
+	return nil
 }
